@@ -436,8 +436,13 @@ fn rbopt(x: Option<BoxedUint>) -> O {
 
 fn boxed_pair(cx: &mut Cx, al: usize, bl: usize, it: usize) {
     let (av, bv) = mul_case(&mut cx.rng, al, bl);
-    let (a, b) = (bx(&av), bx(&bv));
-    let e = |form: &str, sh: &str| ev(form, sh, al, bl, &av, &bv);
+    boxed_forms(cx, &av, &bv, it);
+}
+
+fn boxed_forms(cx: &mut Cx, av: &[u64], bv: &[u64], it: usize) {
+    let (al, bl) = (av.len(), bv.len());
+    let (a, b) = (bx(av), bx(bv));
+    let e = |form: &str, sh: &str| ev(form, sh, al, bl, av, bv);
     cx.call(e("boxed.mul", "wide"), || rb(&a.mul(&b)));
     cx.call(e("boxed.wrapping_mul", "wrap"), || rb(&a.wrapping_mul(&b)));
     cx.call(e("boxed.CheckedMul", "checked"), || rbopt(CheckedMul::checked_mul(&a, &b).into()));
@@ -466,7 +471,7 @@ fn boxed_pair(cx: &mut Cx, al: usize, bl: usize, it: usize) {
         }
         _ => {
             // commuted operands: the trailing-limb paths are not symmetric
-            cx.call(ev("boxed.mul", "wide", bl, al, &bv, &av), || rb(&b.mul(&a)));
+            cx.call(ev("boxed.mul", "wide", bl, al, bv, av), || rb(&b.mul(&a)));
         }
     }
 }
@@ -488,6 +493,23 @@ fn boxed(cx: &mut Cx, s: usize) {
             if rep % 2 == 1 && !hot && n > 12 { continue; }
             boxed_pair(cx, n, n, it);
             boxed_square(cx, n);
+            it += 1;
+        }
+    }
+    // sparse operands whose only non-zero limbs sit around the top-level split (33 x 34 limbs: size 32, one
+    // trailing limb on the left, two on the right): a row carry meets a full high word in the trailing rows
+    {
+        let vals = [MAX, 1, TOP, MAX - 1, 0];
+        for t in 0..(40 * s) {
+            let (mut a, mut b) = (vec![0u64; 33], vec![0u64; 34]);
+            if t == 0 {
+                a[30] = TOP; a[31] = MAX; a[32] = 1;
+                b[32] = MAX; b[33] = MAX;
+            } else {
+                for i in 30..33 { a[i] = cx.rng.pick(&vals); }
+                for i in 30..34 { b[i] = cx.rng.pick(&vals); }
+            }
+            boxed_forms(cx, &a, &b, 4 * t + (t % 2)); // forms of group 0 / 1 (widening trait, operators)
             it += 1;
         }
     }
